@@ -22,6 +22,9 @@ const GLOBAL_START: u64 = 0x400;
 const GLOBAL_END: u64 = 0x3000;
 
 pub struct Case {
+    /// "literal" memory model of the property statement: no memory image, every address outside (-1024,1024)
+    /// is valid memory. Otherwise: a global segment + stack + parameter pages are the only valid memory.
+    pub literal: bool,
     pub project: Project,
     /// (registers, mem seed, aliasing mode)
     pub states: Vec<(Vec<(String, u128, usize)>, u64, bool)>,
@@ -273,10 +276,24 @@ pub fn decode(t: &mut Tape) -> Case {
         use BinOpType::*;
         let k = 1 + g.t.below(nblocks - 3); // blocks k (init), k+1 (head), k+2 (body)
         let r = g.reg();
-        let up = g.t.prob(190);
-        let step = *g.t.choose(&[1i128, 1, 2, 4, 3, 8]);
-        let c0 = *g.t.choose(&[0i128, 1, -1, 5, -8, 100]);
-        let n = c0 + if up { 1 } else { -1 } * step * (1 + g.t.below(12) as i128) + if g.t.prob(60) { 1 } else { 0 };
+        // variant: the counter is also used as an absolute address scanning the global segment (downwards: past the
+        // NULL range into negative addresses, so the address interval straddles the NULL range after widening)
+        let mem_loop = g.t.prob(70);
+        let mut up = g.t.prob(190);
+        let mut step = *g.t.choose(&[1i128, 1, 2, 4, 3, 8]);
+        let mut c0 = *g.t.choose(&[0i128, 1, -1, 5, -8, 100]);
+        let mut n = c0 + if up { 1 } else { -1 } * step * (1 + g.t.below(12) as i128) + if g.t.prob(60) { 1 } else { 0 };
+        if mem_loop {
+            up = g.t.prob(70);
+            step = *g.t.choose(&[8i128, 16, 8, 4]);
+            if up {
+                c0 = *g.t.choose(&[0x400i128, 0x800, 0x1000]);
+                n = *g.t.choose(&[0x2f00i128, 0x2000, 0x1800]);
+            } else {
+                c0 = *g.t.choose(&[3000i128, 0x2ff0, 2048, 0x1000]);
+                n = *g.t.choose(&[-2000i128, -4096, -1024, 0, 1024, -1500]);
+            }
+        }
         let (bt_init, bt_head, bt_body) = (sbase + 0x40 * k as u64, sbase + 0x40 * (k as u64 + 1), sbase + 0x40 * (k as u64 + 2));
         let exit_k = 1 + g.t.below(nblocks - 1);
         let exit = blk_tid(sbase + 0x40 * exit_k as u64);
@@ -308,23 +325,64 @@ pub fn decode(t: &mut Tape) -> Case {
         }
         // the head must not redefine the counter
         blocks[k + 1].term.defs.retain(|d| !matches!(&d.term, Def::Assign { var, .. } | Def::Load { var, .. } if *var == r));
+        if mem_loop {
+            let mut d = g.reg();
+            if d == r {
+                d = var(if r.name == "RBX" { "RAX" } else { "RBX" }, 8);
+            }
+            let acc = if g.t.prob(170) { load(instr_tid(bt_body + 0x37, 0), &d, evar(&r)) } else { store(instr_tid(bt_body + 0x37, 0), evar(&r), evar(&d)) };
+            blocks[k + 2].term.defs.retain(|x| !matches!(&x.term, Def::Assign { var, .. } | Def::Load { var, .. } if *var == r));
+            blocks[k + 2].term.defs.insert(0, acc);
+            g.feat("counting-loop-scans-global-memory");
+        }
         // body: keep its defs (they may or may not touch the counter), then increment and loop
         let inc = if up { ebin(IntAdd, evar(&r), econst(step, 8)) } else { ebin(IntSub, evar(&r), econst(step, 8)) };
         blocks[k + 2].term.defs.push(assign(instr_tid(bt_body + 0x38, 0), &r, inc));
         blocks[k + 2].term.jmps = vec![jmp(instr_tid(bt_body + 0x3f, 0), Jmp::Branch(blk_tid(bt_head)))];
         g.feat("structured-counting-loop");
     }
+    // Diamond that assigns two different constants (often on both sides of the NULL range) to one register,
+    // followed by a memory access through that register and a later use: the shape in which an address
+    // *interval* (not a single constant) meets the NULL-dereference rule and absolute-address handling.
+    if nblocks >= 5 && g.t.prob(70) {
+        use BinOpType::*;
+        let k = 1 + g.t.below(nblocks - 4); // k: test, k+1 / k+2: arms, k+3: join with the access
+        let r = g.reg();
+        let consts = [2000i128, -2000, 1500, -1500, 2048, -4096, 1024, -1024, 0x1000, 0x2ff8, 8, -8, 0x400, 0x800];
+        let c1 = *g.t.choose(&consts);
+        let c2 = *g.t.choose(&consts);
+        let b = |i: usize| sbase + 0x40 * (k + i) as u64;
+        blocks[k].term.jmps = vec![
+            jmp(instr_tid(b(0) + 0x3f, 0), Jmp::CBranch { target: blk_tid(b(1)), condition: evar(&var(if g.t.flag() { "ZF" } else { "CF" }, 1)) }),
+            jmp(instr_tid(b(0) + 0x3f, 1), Jmp::Branch(blk_tid(b(2)))),
+        ];
+        blocks[k + 1].term.defs.push(assign(instr_tid(b(1) + 0x39, 0), &r, econst(c1, 8)));
+        blocks[k + 1].term.jmps = vec![jmp(instr_tid(b(1) + 0x3f, 0), Jmp::Branch(blk_tid(b(3))))];
+        blocks[k + 2].term.defs.push(assign(instr_tid(b(2) + 0x39, 0), &r, econst(c2, 8)));
+        blocks[k + 2].term.jmps = vec![jmp(instr_tid(b(2) + 0x3f, 0), Jmp::Branch(blk_tid(b(3))))];
+        let d = g.reg();
+        let off = *g.t.choose(&[0i128, 0, 8, -8]);
+        let a = if off == 0 { evar(&r) } else { ebin(IntAdd, evar(&r), econst(off, 8)) };
+        let access = if g.t.flag() { load(instr_tid(b(3) + 0x3a, 0), &d, a) } else { store(instr_tid(b(3) + 0x3a, 0), a, evar(&d)) };
+        blocks[k + 3].term.defs.insert(0, access);
+        g.feat("two-constants-join-then-access");
+    }
     let s = sub(sub_tid(sbase), "f", blocks);
     let mut project = project(vec![s], vec![], vec![sub_tid(sbase)]);
     // a writeable global segment at low addresses just above the NULL range: absolute accesses into it are
     // valid (unknown content); every other absolute access is invalid for the analysis and aborts the concrete run
-    project.runtime_memory_image.memory_segments.push(cwe_checker_lib::utils::binary::MemorySegment {
-        bytes: vec![0u8; (GLOBAL_END - GLOBAL_START) as usize],
-        base_address: GLOBAL_START,
-        read_flag: true,
-        write_flag: true,
-        execute_flag: false,
-    });
+    let literal = g.t.prob(64);
+    if literal {
+        g.feat("literal-memory-model");
+    } else {
+        project.runtime_memory_image.memory_segments.push(cwe_checker_lib::utils::binary::MemorySegment {
+            bytes: vec![0u8; (GLOBAL_END - GLOBAL_START) as usize],
+            base_address: GLOBAL_START,
+            read_flag: true,
+            write_flag: true,
+            execute_flag: false,
+        });
+    }
     // initial states
     let mut states = vec![];
     for k in 0..NSTATES {
@@ -359,7 +417,7 @@ pub fn decode(t: &mut Tape) -> Case {
         }
         states.push((regs, g.t.u16() as u64, aliasing));
     }
-    Case { project, states, features: g.features }
+    Case { literal, project, states, features: g.features }
 }
 
 /// Entry-value environment for abstract identifiers.
@@ -368,6 +426,7 @@ struct Rho<'a> {
     entry: &'a BTreeMap<String, u128>,
     entry_mem: &'a State,
     sp_name: &'a str,
+    lenient_empty: bool,
 }
 
 impl<'a> Rho<'a> {
@@ -394,6 +453,11 @@ impl<'a> Rho<'a> {
 fn represented(d: &DataDomain<IntervalDomain>, v: u128, w: usize, rho: &Rho) -> (bool, bool) {
     // returns (represented, lenient) where lenient = only represented thanks to an unknown identifier / top
     if d.contains_top() {
+        return (true, true);
+    }
+    // In the literal memory model reads of absolute addresses outside the (empty) memory image complete, while the
+    // analysis gives them no value at all (it regards them as invalid accesses); such registers are not judged.
+    if rho.lenient_empty && d.is_empty() {
         return (true, true);
     }
     if let Some(a) = d.get_absolute_value() {
@@ -452,6 +516,9 @@ impl<'a, 'b> Observer for Obs<'a, 'b> {
             return false;
         }
         for r in self.regs {
+            if state.poison_vars.contains(&r.name) {
+                continue;
+            }
             let v = state.get(r);
             let d = match self.pi.eval_at_node(node, &Expression::Var(r.clone())) {
                 Some(d) => d,
@@ -530,14 +597,20 @@ pub fn check_case(case: &Case, ctx: &mut Ctx) -> CaseResult {
                     ranges.push((v - 0x1000, v + 0x1000));
                 }
             }
-            st.valid_ranges = Some(ranges);
+            if !case.literal {
+                st.valid_ranges = Some(ranges);
+            } else {
+                // literal model: everything outside the NULL range is memory, but what is loaded from outside
+                // the stack / parameter pages is not modelled by the analysis (empty memory image): poisoned
+                st.unpoisoned_ranges = Some(ranges.into_iter().filter(|(lo, _)| *lo != GLOBAL_START).collect());
+            }
             let mut entry = BTreeMap::new();
             for (n, v, w) in regvals {
                 st.set(n, *v, *w);
                 entry.insert(n.clone(), *v);
             }
             let entry_mem = State::new(seed);
-            let rho = Rho { sub_tid: &sub_tid, entry: &entry, entry_mem: &entry_mem, sp_name: "RSP" };
+            let rho = Rho { sub_tid: &sub_tid, entry: &entry, entry_mem: &entry_mem, sp_name: "RSP", lenient_empty: case.literal };
             let mut obs = Obs { pi: &pi, nodes: &nodes, regs: &regs, rho, failure: None, arrivals: 0, lenient: 0, exact: 0, visited: vec![] };
             let run = run_sub(s, &mut st, &regs, &Limits { max_events: 300, max_blocks: 80 }, &[], &mut obs);
             let looped = run.blocks.len() > obs.visited.len();
@@ -649,4 +722,5 @@ pub fn run(eng: &mut Engine) {
     eng.require_fraction("pi-soundness", "nontrivial", 0.25);
     eng.require_fraction("pi-soundness", "analysis-pruned-some-block", 0.02);
     eng.require_fraction("pi-soundness", "feature:structured-counting-loop", 0.1);
+    eng.require_fraction("pi-soundness", "feature:two-constants-join-then-access", 0.05);
 }
